@@ -414,6 +414,9 @@ class Interp:
 
     def _refine(self, cond, truth, env):
         """Record facts `len(x) == k` for later indexing decisions."""
+        # one spelling per fact: `not X` false  ==  X true
+        while isinstance(cond, tuple) and cond and cond[0] == "not" and len(cond) == 2:
+            cond, truth = cond[1], not truth
         if isinstance(cond, tuple) and cond and cond[0] == "cmp" and truth:
             _, op, a, b = cond
             if op == "==" and isinstance(a, tuple) and a[0] == "call" and a[1] == "len" \
@@ -431,6 +434,9 @@ class Interp:
                     elif isinstance(v, tuple) and v and v[0] == "phi":
                         rest = [x for x in v[1:] if x != NONE]
                         env[k] = phi(*rest) if rest else v
+                    elif isinstance(v, tuple) and v and v[0] == "dget" and v[3] == NONE:
+                        # d.get(k) known not to be None: the key is there
+                        env[k] = ("dval", v[1], v[2])
         if isinstance(cond, tuple) and cond and cond[0] == "and" and truth:
             for c in cond[1:]:
                 self._refine(c, True, env)
